@@ -202,7 +202,10 @@ func VC_C07_single_method() {
 	verifReached("C07.single")
 }
 
-var vRoundN = [3]string{"round0", "round1", "round2"}
+var vRoundN = [5]string{"round0", "round1", "round2", "round3", "round4"}
+
+// vRounds07: maximal number of apply/undo rounds (3 quick; VC_C07x_history sets 5)
+var vRounds07 = 3
 
 // VC_C07_history: up to three apply/undo rounds on one variable, each applying either
 // through a per-method handle obtained before the first round or through a fresh
@@ -224,7 +227,7 @@ func VC_C07_history() {
 	b := Create()
 	h := b.Interface(&vSvcA).Method("Gamma")
 	x := verifInt("x")
-	rounds := 1 + verifChoice("rounds", 3)
+	rounds := 1 + verifChoice("rounds", vRounds07)
 	for r := 0; r < rounds; r++ {
 		fresh := verifBool(vRoundN[r] + ".fresh")
 		if fresh {
@@ -258,3 +261,6 @@ func VC_C07_history() {
 	}
 	verifReached("C07.history")
 }
+
+// thorough tier: up to five apply/undo rounds
+func VC_C07x_history() { vRounds07 = 5; VC_C07_history() }
